@@ -9,7 +9,7 @@ RULE = ('parameter lists of U({a,b,c},3) (quick: 800 seeded; thorough: all 1972,
         '(literals or names resolved in supplied globals) and a return annotation; s(text) in native, chevron, postponed and the 7 '
         'use_modifiers_* spellings, func_from_sig(sig), f(text) called on every shape (0..capacity+2 positionals x all keyword '
         'subsets incl. a foreign one), bind_callsig and sort_callsigs against really calling the native function, '
-        'make_up_callsigs against the full prefix x subset product. Non-trivial: every signature; distinct by (parameters, return).')
+        'make_up_callsigs against the full prefix x subset product. Defaults and annotations include literals whose text contains commas, colons, equal signs, brackets and both kinds of quotes; positional call values include None and 0. Non-trivial: every signature; distinct by (parameters, return).')
 ASSUMPTIONS = ['a keyword naming a positional-only parameter alongside **kwargs is excluded (stated)',
                'func_from_sig is exercised only where str(sig) is re-parsable Python (literal defaults/annotations)',
                'use_modifiers_* spellings compared up to the order of keyword-only parameters, signatures without positional-only parameters only (stated)']
